@@ -6,6 +6,7 @@ import (
 	"context"
 	"encoding/json"
 	"fmt"
+	ma "github.com/multiformats/go-multiaddr"
 	"net/url"
 	"reflect"
 	"runtime/debug"
@@ -378,8 +379,27 @@ func protoRoundTrip(c *fw.Ctx, r *fw.Rand) {
 	}
 	n := 30
 	pins := map[string]*api.Pin{}
-	for i := 0; i < n; i++ {
+	// pins with exactly one option set (everything else at its zero value): an encoder
+	// must not make the presence of one field depend on another
+	oneHot := []func(p *api.Pin){
+		func(p *api.Pin) { p.Origins = []ma.Multiaddr{gen.Multiaddr(r, true)} },
+		func(p *api.Pin) { p.Name = "n" + r.Str(3) },
+		func(p *api.Pin) { p.ShardSize = uint64(r.Range(1, 1<<20)) },
+		func(p *api.Pin) { p.Metadata = map[string]string{"k": r.Str(2)} },
+		func(p *api.Pin) { p.PinUpdate = gen.RandCid(r) },
+		func(p *api.Pin) { p.ExpireAt = time.Unix(time.Now().Add(time.Hour).Unix(), 0) },
+		func(p *api.Pin) { p.ReplicationFactorMin = r.Range(1, 5) },
+		func(p *api.Pin) { p.ReplicationFactorMax = r.Range(1, 5) },
+		func(p *api.Pin) { p.Allocations = gen.Peers(r.Range(1, 3)) },
+	}
+	for i := 0; i < n+len(oneHot); i++ {
 		p := gen.Pin(r, gen.PinParams{AllTypes: true})
+		if i >= n {
+			bare := api.PinCid(gen.Cid(990000+i, i))
+			bare.ReplicationFactorMin, bare.ReplicationFactorMax = 0, 0
+			oneHot[i-n](bare)
+			p = bare
+		}
 		c.Journal("proto %s", pinJSON(p))
 		if err := st.Add(ctx, p); err != nil {
 			c.Violation("C08/proto/add-error", "dsstate.Add refused a well-formed pin: "+err.Error(), pinJSON(p))
